@@ -18,7 +18,14 @@ pub fn limit(input_len: usize) -> usize {
 const REGION: usize = 1 << 20;
 const CUR_OFF: usize = 8;
 const CUR_MAX: usize = 200;
-const DATA_OFF: usize = 256;
+const CALL_NO_OFF: usize = 216; // u32: ordinal of the monitored call in progress
+const AB_N_OFF: usize = 256; // u32: number of frames recorded by the SIGABRT handler
+const AB_CHAIN_OFF: usize = 264; // up to AB_MAX u64: return addresses inside the executable, relative to its text start
+const AB_MAX: usize = 10;
+const AB_FUNC_N_OFF: usize = 400; // u32: length of the function name (symbolize mode only)
+const AB_FUNC_OFF: usize = 404;
+const AB_FUNC_MAX: usize = 400;
+const DATA_OFF: usize = 1024;
 
 #[derive(Clone, Debug, PartialEq)]
 pub enum Status {
@@ -47,8 +54,24 @@ pub struct PanicRec {
     pub func: String,
 }
 
+/// the child died: which entry point was running, how, and where (address chain / function)
+#[derive(Clone, Debug, Default)]
+pub struct Death {
+    pub ep: String,
+    /// ordinal of the monitored call that was running
+    pub call_no: u32,
+    /// stable class without the site, e.g. "abort: single allocation request above ..."
+    pub class: String,
+    pub detail: String,
+    /// key of the dying call chain (relative return addresses inside the executable); empty if unknown
+    pub chain: String,
+    /// innermost /repo function (symbolize mode only)
+    pub func: String,
+}
+
 #[derive(Clone, Debug, Default)]
 pub struct Report {
+    pub death: Option<Death>,
     pub panics: Vec<PanicRec>,
     pub eps: Vec<EpAgg>,
     /// (symptom class, detail)
@@ -158,11 +181,77 @@ pub fn panic_site(file: &str, func: &str, msg: &str) -> String {
     }
 }
 
+// ------------------------------------------------------------------ abort site capture (child)
+
+static REGION_PTR: std::sync::atomic::AtomicPtr<u8> = std::sync::atomic::AtomicPtr::new(std::ptr::null_mut());
+static EXE_START: std::sync::atomic::AtomicUsize = std::sync::atomic::AtomicUsize::new(0);
+static EXE_END: std::sync::atomic::AtomicUsize = std::sync::atomic::AtomicUsize::new(0);
+
+/// executable text range of this process image (identical layout in every fork of it; relative
+/// addresses are a pure function of the binary)
+fn find_exe_range() {
+    let exe = std::env::current_exe().ok().map(|p| p.to_string_lossy().to_string()).unwrap_or_default();
+    let Ok(maps) = std::fs::read_to_string("/proc/self/maps") else { return };
+    let (mut lo, mut hi) = (usize::MAX, 0usize);
+    for l in maps.lines() {
+        if !l.ends_with(&exe) {
+            continue;
+        }
+        let mut it = l.split_whitespace();
+        let (Some(range), Some(_perm)) = (it.next(), it.next()) else { continue };
+        let Some((a, b)) = range.split_once('-') else { continue };
+        let (Ok(a), Ok(b)) = (usize::from_str_radix(a, 16), usize::from_str_radix(b, 16)) else { continue };
+        lo = lo.min(a);
+        hi = hi.max(b);
+    }
+    if lo < hi {
+        EXE_START.store(lo, Ordering::Relaxed);
+        EXE_END.store(hi, Ordering::Relaxed);
+    }
+}
+
+/// SIGABRT (refused allocation -> handle_alloc_error -> abort; stack overflow; double panic):
+/// leave the return-address chain in the shared region, in symbolize mode also the innermost
+/// /repo function, then die by the default action.  Runs in a process that is about to die.
+extern "C" fn on_abort(_sig: libc::c_int) {
+    unsafe {
+        libc::signal(libc::SIGABRT, libc::SIG_DFL);
+        let region = REGION_PTR.load(Ordering::Relaxed);
+        if !region.is_null() {
+            let mut buf = [std::ptr::null_mut::<libc::c_void>(); 64];
+            let n = libc::backtrace(buf.as_mut_ptr(), 64).max(0) as usize;
+            let (lo, hi) = (EXE_START.load(Ordering::Relaxed), EXE_END.load(Ordering::Relaxed));
+            let mut k = 0usize;
+            for p in buf.iter().take(n) {
+                let a = *p as usize;
+                if a >= lo && a < hi && k < AB_MAX {
+                    std::ptr::write_volatile((region.add(AB_CHAIN_OFF) as *mut u64).add(k), (a - lo) as u64);
+                    k += 1;
+                }
+            }
+            std::ptr::write_volatile(region.add(AB_N_OFF) as *mut u32, k as u32);
+            if SYMBOLIZE.load(Ordering::Relaxed) {
+                alloc::HARD_CAP.store(usize::MAX, Ordering::Relaxed);
+                let bt = std::backtrace::Backtrace::force_capture().to_string();
+                let f = repo_frame(&bt);
+                let b = f.as_bytes();
+                let m = b.len().min(AB_FUNC_MAX);
+                std::ptr::copy_nonoverlapping(b.as_ptr(), region.add(AB_FUNC_OFF), m);
+                std::ptr::write_volatile(region.add(AB_FUNC_N_OFF) as *mut u32, m as u32);
+            }
+        }
+        libc::raise(libc::SIGABRT);
+    }
+}
+
 // ------------------------------------------------------------------ recorder (runs in the child)
 
 pub struct Recorder {
     region: *mut u8,
     input_len: usize,
+    /// ordinals of monitored calls that killed an earlier child of this case: not repeated
+    skip: Vec<u32>,
+    call_no: u32,
     panics: Vec<PanicRec>,
     eps: Vec<EpAgg>,
     viols: Vec<(String, String)>,
@@ -206,7 +295,15 @@ impl Recorder {
 
     /// Run one entry point under all monitors.  `Ok(v)` of the subject is handed back.
     pub fn call<T, E: std::fmt::Display>(&mut self, ep: &str, f: impl FnOnce() -> Result<T, E>) -> Option<T> {
+        let no = self.call_no;
+        self.call_no += 1;
+        if self.skip.contains(&no) {
+            return None;
+        }
         self.set_current(ep);
+        if !self.region.is_null() {
+            unsafe { std::ptr::write_volatile(self.region.add(CALL_NO_OFF) as *mut u32, no) };
+        }
         let lim = limit(self.input_len);
         alloc::HARD_CAP.store(lim, Ordering::Relaxed);
         let _ = take_panic();
@@ -255,10 +352,8 @@ impl Recorder {
                 format!("peak {peak} bytes above baseline, limit {lim}, input {} bytes", self.input_len),
             );
         }
-        if !self.panics.is_empty() || !self.viols.is_empty() {
-            // a later abort must not lose what was already observed
-            self.flush();
-        }
+        // a later abort must not lose what was already observed
+        self.flush();
         out
     }
 
@@ -294,7 +389,7 @@ impl Recorder {
         }
     }
     fn into_report(self) -> Report {
-        Report { panics: self.panics, eps: self.eps, viols: self.viols, notes: self.notes, max_consumed: self.max_consumed }
+        Report { death: None, panics: self.panics, eps: self.eps, viols: self.viols, notes: self.notes, max_consumed: self.max_consumed }
     }
 }
 
@@ -319,6 +414,7 @@ impl Sandbox {
         let fd = unsafe { libc::open(c.as_ptr(), libc::O_RDWR | libc::O_CREAT | libc::O_TRUNC, 0o600) };
         assert!(fd >= 0, "open stderr capture file");
         install_hook();
+        find_exe_range();
         // parent and child on one CPU: the child then runs as soon as the parent blocks in waitpid
         // (cross-CPU wake-ups cost milliseconds in this VM); worker k of n is pinned to CPU k mod ncpu
         if std::env::var("C05_NOPIN").is_err() {
@@ -380,16 +476,18 @@ impl Sandbox {
     }
 
     /// Run `body` (the entry points of one case) in a forked child and collect what happened.
-    pub fn run(&self, input_len: usize, sym: bool, body: &dyn Fn(&mut Recorder)) -> Report {
+    pub fn run(&self, input_len: usize, sym: bool, skip: &[u32], body: &dyn Fn(&mut Recorder)) -> Report {
         if self.nofork {
             SYMBOLIZE.store(sym, Ordering::Relaxed);
-            let mut rec = Recorder { region: std::ptr::null_mut(), input_len, panics: vec![], eps: vec![], viols: vec![], notes: vec![], max_consumed: 0 };
+            let mut rec = Recorder { region: std::ptr::null_mut(), input_len, skip: skip.to_vec(), call_no: 0, panics: vec![], eps: vec![], viols: vec![], notes: vec![], max_consumed: 0 };
             body(&mut rec);
             return rec.into_report();
         }
         unsafe {
             std::ptr::write_volatile(self.region as *mut u32, 0);
             std::ptr::write_volatile(self.region.add(4) as *mut u32, 0);
+            std::ptr::write_volatile(self.region.add(AB_N_OFF) as *mut u32, 0);
+            std::ptr::write_volatile(self.region.add(AB_FUNC_N_OFF) as *mut u32, 0);
             libc::ftruncate(self.stderr_fd, 0);
             libc::lseek(self.stderr_fd, 0, libc::SEEK_SET);
         }
@@ -410,9 +508,11 @@ impl Sandbox {
                 let asl = libc::rlimit { rlim_cur: as_lim, rlim_max: as_lim };
                 libc::setrlimit(libc::RLIMIT_AS, &asl);
                 libc::alarm(self.secs);
+                REGION_PTR.store(self.region, Ordering::Relaxed);
+                libc::signal(libc::SIGABRT, on_abort as usize);
             }
             SYMBOLIZE.store(sym, Ordering::Relaxed);
-            let mut rec = Recorder { region: self.region, input_len, panics: vec![], eps: vec![], viols: vec![], notes: vec![], max_consumed: 0 };
+            let mut rec = Recorder { region: self.region, input_len, skip: skip.to_vec(), call_no: 0, panics: vec![], eps: vec![], viols: vec![], notes: vec![], max_consumed: 0 };
             let r = std::panic::catch_unwind(std::panic::AssertUnwindSafe(|| body(&mut rec)));
             if r.is_err() {
                 let (file, line, msg, _) = take_panic().unwrap_or_default();
@@ -442,29 +542,34 @@ impl Sandbox {
             let first = err.lines().find(|l| !l.trim().is_empty()).unwrap_or("").to_string();
             let sig = if libc::WIFSIGNALED(status) { libc::WTERMSIG(status) } else { 0 };
             let (class, detail) = if sig == libc::SIGALRM {
-                (format!("{ep}: hang: no return within the per-case time limit"), format!("child killed by SIGALRM after {} s", self.secs))
+                ("hang: no return within the per-case time limit".to_string(), format!("child killed by SIGALRM after {} s", self.secs))
             } else if err.contains("memory allocation of") {
                 // "memory allocation of N bytes failed"
                 let n: usize = err.split("memory allocation of ").nth(1).and_then(|s| s.split(' ').next()).and_then(|s| s.parse().ok()).unwrap_or(0);
                 if n > lim {
                     (
-                        format!("{ep}: abort: single allocation request above 256 MiB + 4096 x input_len (refused, process aborted)"),
+                        "abort: single allocation request above 256 MiB + 4096 x input_len (refused, process aborted)".to_string(),
                         format!("request of {n} bytes, limit {lim}, input {input_len} bytes; signal {sig}"),
                     )
                 } else {
                     (
-                        format!("{ep}: abort: allocation failed below the single-request limit (live heap exhausted the address-space backstop)"),
+                        "abort: allocation failed below the single-request limit (live heap exhausted the address-space backstop)".to_string(),
                         format!("request of {n} bytes, limit {lim}, input {input_len} bytes; signal {sig}"),
                     )
                 }
             } else if err.contains("overflowed its stack") || err.contains("stack overflow") {
-                (format!("{ep}: abort: stack overflow"), format!("signal {sig}: {first}"))
+                ("abort: stack overflow".to_string(), format!("signal {sig}: {first}"))
             } else if libc::WIFSIGNALED(status) {
-                (format!("{ep}: abort: killed by signal {}", sig_name(sig)), format!("signal {sig}: {first}"))
+                (format!("abort: killed by signal {}", sig_name(sig)), format!("signal {sig}: {first}"))
             } else {
-                (format!("{ep}: abort: process exited with a failure status"), format!("status {}: {first}", libc::WEXITSTATUS(status)))
+                ("abort: process exited with a failure status".to_string(), format!("status {}: {first}", libc::WEXITSTATUS(status)))
             };
-            rep.viols.push((class, detail));
+            let n = (unsafe { std::ptr::read_volatile(self.region.add(AB_N_OFF) as *const u32) } as usize).min(AB_MAX);
+            let chain: Vec<String> = (0..n).map(|k| format!("{:x}", unsafe { std::ptr::read_volatile((self.region.add(AB_CHAIN_OFF) as *const u64).add(k)) })).collect();
+            let fl = (unsafe { std::ptr::read_volatile(self.region.add(AB_FUNC_N_OFF) as *const u32) } as usize).min(AB_FUNC_MAX);
+            let func = String::from_utf8_lossy(unsafe { std::slice::from_raw_parts(self.region.add(AB_FUNC_OFF), fl) }).to_string();
+            let call_no = unsafe { std::ptr::read_volatile(self.region.add(CALL_NO_OFF) as *const u32) };
+            rep.death = Some(Death { ep, call_no, class, detail, chain: chain.join(","), func });
         }
         rep
     }
@@ -487,6 +592,132 @@ impl Drop for Sandbox {
         unsafe {
             libc::munmap(self.region as *mut libc::c_void, REGION);
             libc::close(self.stderr_fd);
+        }
+    }
+}
+
+// ------------------------------------------------------------------ symbolizer server
+
+/// A helper process forked from the worker while it is still small.  It answers "re-run case i in
+/// symbolize mode" requests: it warms the backtrace symbolizer once (~0.4 s, +130 MiB) and forks the
+/// case children itself, so that they inherit the parsed debug info; the worker stays small and its
+/// own forks stay fast.
+pub struct SymServer {
+    req_w: i32,
+    resp_r: i32,
+}
+
+fn write_all(fd: i32, b: &[u8]) -> bool {
+    let mut o = 0;
+    while o < b.len() {
+        let n = unsafe { libc::write(fd, b[o..].as_ptr() as *const libc::c_void, b.len() - o) };
+        if n <= 0 {
+            return false;
+        }
+        o += n as usize;
+    }
+    true
+}
+fn read_line(fd: i32) -> Option<String> {
+    let mut v = vec![];
+    let mut c = [0u8; 1];
+    loop {
+        let n = unsafe { libc::read(fd, c.as_mut_ptr() as *mut libc::c_void, 1) };
+        if n <= 0 {
+            return None;
+        }
+        if c[0] == b'\n' {
+            return Some(String::from_utf8_lossy(&v).to_string());
+        }
+        v.push(c[0]);
+    }
+}
+
+impl SymServer {
+    /// `handler(i, skip)` runs case i in symbolize mode and returns its report
+    pub fn spawn(handler: &dyn Fn(u64, &[u32]) -> Report) -> Option<SymServer> {
+        let mut rq = [0i32; 2];
+        let mut rs = [0i32; 2];
+        unsafe {
+            if libc::pipe(rq.as_mut_ptr()) != 0 || libc::pipe(rs.as_mut_ptr()) != 0 {
+                return None;
+            }
+        }
+        let pid = unsafe { libc::fork() };
+        if pid < 0 {
+            return None;
+        }
+        if pid == 0 {
+            unsafe {
+                libc::close(rq[1]);
+                libc::close(rs[0]);
+                let devnull = libc::open(b"/dev/null\0".as_ptr() as *const libc::c_char, libc::O_WRONLY);
+                if devnull >= 0 {
+                    libc::dup2(devnull, 1);
+                }
+            }
+            let mut warmed = false;
+            while let Some(line) = read_line(rq[0]) {
+                if !warmed {
+                    warm_symbolizer();
+                    warmed = true;
+                }
+                let (a, b) = line.split_once(';').unwrap_or((&line, ""));
+                let i: u64 = a.parse().unwrap_or(0);
+                let skip: Vec<u32> = b.split(',').filter_map(|x| x.parse().ok()).collect();
+                let rep = handler(i, &skip);
+                let mut out = String::new();
+                for p in &rep.panics {
+                    out.push_str(&format!("P\x1f{}\x1f{}\x1f{}\n", p.file, p.line, p.func.replace('\n', " ")));
+                }
+                if let Some(d) = &rep.death {
+                    out.push_str(&format!("D\x1f{}\x1f{}\n", d.chain, d.func.replace('\n', " ")));
+                }
+                out.push_str("END\n");
+                if !write_all(rs[1], out.as_bytes()) {
+                    break;
+                }
+            }
+            unsafe { libc::_exit(0) };
+        }
+        unsafe {
+            libc::close(rq[0]);
+            libc::close(rs[1]);
+            // the case children of the worker must not keep the server alive
+            libc::fcntl(rq[1], libc::F_SETFD, libc::FD_CLOEXEC);
+            libc::fcntl(rs[0], libc::F_SETFD, libc::FD_CLOEXEC);
+        }
+        Some(SymServer { req_w: rq[1], resp_r: rs[0] })
+    }
+
+    /// (panic sites as (file, line, func), death as (chain, func))
+    pub fn resolve(&self, i: u64, skip: &[u32]) -> Option<(Vec<(String, u32, String)>, Option<(String, String)>)> {
+        let sk: Vec<String> = skip.iter().map(|x| x.to_string()).collect();
+        if !write_all(self.req_w, format!("{};{}\n", i, sk.join(",")).as_bytes()) {
+            return None;
+        }
+        let mut panics = vec![];
+        let mut death = None;
+        loop {
+            let l = read_line(self.resp_r)?;
+            if l == "END" {
+                break;
+            }
+            let f: Vec<&str> = l.split('\x1f').collect();
+            match f[0] {
+                "P" if f.len() >= 4 => panics.push((f[1].to_string(), f[2].parse().unwrap_or(0), f[3].to_string())),
+                "D" if f.len() >= 3 => death = Some((f[1].to_string(), f[2].to_string())),
+                _ => {}
+            }
+        }
+        Some((panics, death))
+    }
+}
+impl Drop for SymServer {
+    fn drop(&mut self) {
+        unsafe {
+            libc::close(self.req_w);
+            libc::close(self.resp_r);
         }
     }
 }
